@@ -12,7 +12,7 @@ from typing import Any, Dict, List
 from .. import core, tlc
 from ..gamma import g_ctx, g_data, g_prog, prog_key
 from ..pool import pmap
-from .c01_trace import gen_program
+from .c01_trace import Unabstractable, alpha_ctx, alpha_data, gen_program
 
 
 def record_chunk(cases: List[Dict[str, Any]]):
@@ -25,6 +25,12 @@ def record_chunk(cases: List[Dict[str, Any]]):
         obs = run_traced(g_prog(case["prog"]), g_data(case["idata"]), g_ctx(case["ictx"]),
                          detail=DETAILS[h % len(DETAILS)], mode=MODES[(h // 7) % 2])
         if obs["construct_error"] or "read_error" in obs:
+            out.append(("skip", case))
+            continue
+        try:  # TLC recomputes the payload: keep only runs whose values stay inside its integer range
+            for d, c in obs["oks"]:
+                alpha_data(d), alpha_ctx(c)
+        except Unabstractable:
             out.append(("skip", case))
             continue
         recs = obs["records"]
